@@ -671,7 +671,7 @@ def systematic(depth, menu=None, setup='tunnel', mx=2):
 
 def generate(rng, tier):
     big = tier == 'thorough'
-    for _ in range(2500 if not big else 20000):
+    for _ in range(2000 if not big else 20000):
         yield gen_flush_case(rng, big=False)
     for _ in range(12 if not big else 120):
         yield gen_flush_case(rng, big=True)
@@ -684,9 +684,9 @@ def generate(rng, tier):
             yield c
         for c in systematic(3, setup='http', mx=3):
             yield c
-    for _ in range(1500 if not big else 25000):
+    for _ in range(1200 if not big else 25000):
         yield gen_relay_case(rng, 'tunnel')
-    for _ in range(1000 if not big else 15000):
+    for _ in range(800 if not big else 15000):
         yield gen_relay_case(rng, 'http')
     for _ in range(6 if not big else 40):
         yield gen_relay_case(rng, 'tunnel', big=True)
